@@ -259,6 +259,22 @@ PROPS = {
         trusted_base=[GO_LIBS, "OS clock", "unixpacket socket", "go-pfcp codecs"],
         assumptions=["monotone clock", "one association"],
     ),
+    "C12": dict(
+        lean=["Upf.Props.C12"],
+        level="proof",
+        claim="For every retry count N, sequence number and event sequence of the waiter (timeouts, responses with any sequence number, shutdown): at most 1+N "
+              "transmissions; declared dead only after all 1+N went unanswered; stops at the first response with the request's sequence number; other sequence "
+              "numbers are ignored; late/duplicated responses never block the reader (with the regenerated pending-request facts); defaults 5 / 2 s / 5 s regenerated. "
+              "T2 with REAL timers against a scripted lossy peer: answer the k-th transmission (k = 1..N+1) or none for N = 1..3, counts / spacing / sequence numbers, "
+              "dead peer's sessions removed, wrong-sequence and triplicated responses, peer heartbeats (constant Recovery Time Stamp, postponement), association "
+              "accepted iff the datapath is connected (fake BESS stopped), advertised features for all 4 feature configurations.",
+        note="partial: real timers, the Go scheduler and the gRPC connectivity state machine are runtime behaviour the model takes as inputs; spacing is accepted "
+             "within [0.7, 1.5] x resp_timeout (measured jitter on this machine < 1 ms). The feature bits are compared, not derived from the setters' source.",
+        rule="N in {1,2,3} x answer-at-k / never (12 series in thorough, 10 in quick) with a live session each; 3 duplicate/wrong-sequence scripts; 3 peer-heartbeat scripts; "
+             "4 feature configurations x datapath up/down; non-trivial = every observed series",
+        trusted_base=[GO_LIBS, "OS timers and scheduler", "gRPC connectivity state", "go-pfcp codecs"],
+        assumptions=["timer jitter below 30% of resp_timeout (80 ms)"],
+    ),
 }
 
 NOT_APPLICABLE = {}
